@@ -8,6 +8,8 @@ def explore(run, lean):
     run.extra["rule"] = ("random charts (<=8 states) built three ways (hand-written handlers, state_method_template + register_signal_callback/register_parent in shuffled registration order, exec of the to_code text), callbacks that transition / handle / decline, 30% with callbacks named `handled`; callback invocation logs and final states compared; every to_code text parsed and compared with the Lean ladder")
     ROUND6_RULE = '; bound-method callbacks with tolerant signatures (*more, option=None); template functions shared with a differently nested chart'
     run.extra["rule"] += ROUND6_RULE
+    ROUND8_RULE = '; charts built through the Factory class with awkward state names (spaces, dots, keywords, other scripts) compared with the hand-written twin and their to_code text (round 8)'
+    run.extra["rule"] = run.extra.get("rule", "") + ROUND8_RULE
 
 
 def replay(case):
